@@ -43,3 +43,4 @@ fields("Bat", loudness="float", pulse_rate="float", velocity="list[val]")
 fields("ContinuousMultiVariable", lower_bounds="list[float]", upper_bounds="list[float]")
 fields("MultiObjectiveVariable", lower_bounds="list[float]", upper_bounds="list[float]")
 fields("Variable", name="str")
+fields("PermutationVariable", items="list[any]")
